@@ -5,6 +5,7 @@ import (
 	"go/token"
 	"go/types"
 	"math/big"
+	"os"
 	"sort"
 	"strings"
 
@@ -69,9 +70,97 @@ type linEnv struct {
 	names map[ssa.Value]string
 	lens  map[string]bool // variables that are lengths (>= 0)
 	n     int
+	// side facts discovered while translating values: each entry is a list of alternatives
+	// (case split), each alternative a conjunction of "form >= 0"
+	side [][][]*linForm
+	divs map[ssa.Value]string // x / k quotient variables (one per SSA division)
+	phis map[ssa.Value]bool
 }
 
-func newLinEnv() *linEnv { return &linEnv{names: map[ssa.Value]string{}, lens: map[string]bool{}} }
+func newLinEnv() *linEnv {
+	return &linEnv{names: map[ssa.Value]string{}, lens: map[string]bool{}, divs: map[ssa.Value]string{}, phis: map[ssa.Value]bool{}}
+}
+
+func linConst(k int64) *linForm            { r := newLin(); r.k.SetInt64(k); return r }
+func linVar(n string) *linForm             { r := newLin(); r.c[n] = big.NewRat(1, 1); return r }
+func (a *linForm) sub(b *linForm) *linForm { return a.addScaled(b, big.NewRat(-1, 1)) }
+func (a *linForm) plus(k int64) *linForm   { r := a.clone(); r.k.Add(r.k, big.NewRat(k, 1)); return r }
+
+// quotient: the linear variable standing for x / k (k > 0 constant, Go truncated division), with
+// its defining facts registered as a case split on the sign of x.
+func (e *linEnv) quotient(div ssa.Value, x ssa.Value, k int64, depth int) *linForm {
+	for old, n := range e.divs {
+		if ob, ok := old.(*ssa.BinOp); ok {
+			if ok2, _ := intConst(ob.Y); ok2 == k && sameOrigin(ob.X, x) {
+				return linVar(n)
+			}
+		}
+	}
+	e.n++
+	n := fmt.Sprintf("q%d", e.n)
+	e.divs[div] = n
+	lx := e.toLin(x, depth+1)
+	q := linVar(n)
+	kq := newLin().addScaled(q, big.NewRat(k, 1))
+	rem := lx.sub(kq) // x - k*q
+	// x >= 0: 0 <= rem <= k-1 ; x <= -1: -(k-1) <= rem <= 0
+	altPos := []*linForm{lx.clone(), rem.clone(), newLin().sub(rem).plus(k - 1)}
+	altNeg := []*linForm{newLin().sub(lx).plus(-1), rem.plus(k - 1), newLin().sub(rem)}
+	e.side = append(e.side, [][]*linForm{altPos, altNeg})
+	return q
+}
+
+// inductionFacts: phi = [init, phi + c, phi + c', …] gives phi >= init (all c > 0) or phi <= init (all c < 0).
+func (e *linEnv) inductionFacts(ph *ssa.Phi, depth int) {
+	if e.phis[ph] {
+		return
+	}
+	e.phis[ph] = true
+	var init ssa.Value
+	sign := 0
+	for _, ed := range ph.Edges {
+		if bo, ok := ed.(*ssa.BinOp); ok && (bo.Op == token.ADD || bo.Op == token.SUB) && bo.X == ssa.Value(ph) {
+			c, okc := intConst(bo.Y)
+			if !okc || c == 0 {
+				return
+			}
+			if bo.Op == token.SUB {
+				c = -c
+			}
+			sg := 1
+			if c < 0 {
+				sg = -1
+			}
+			if sign != 0 && sign != sg {
+				return
+			}
+			sign = sg
+			continue
+		}
+		if dependsOn(ed, func(x ssa.Value) bool { return x == ssa.Value(ph) }) {
+			return
+		}
+		if init != nil && init != ed {
+			if a, oka := intConst(init); oka {
+				if b, okb := intConst(ed); okb && a == b {
+					continue
+				}
+			}
+			return
+		}
+		init = ed
+	}
+	if init == nil || sign == 0 {
+		return
+	}
+	li := e.toLin(init, depth+1)
+	me := linVar(e.varName(ph))
+	if sign > 0 {
+		e.side = append(e.side, [][]*linForm{{me.sub(li)}})
+	} else {
+		e.side = append(e.side, [][]*linForm{{li.sub(me)}})
+	}
+}
 
 func (e *linEnv) varName(v ssa.Value) string {
 	v = unwrap(v)
@@ -79,6 +168,25 @@ func (e *linEnv) varName(v ssa.Value) string {
 		return n
 	}
 	name := ""
+	// load of a local (possibly captured) variable that is assigned exactly once: the assigned value
+	if u, ok := v.(*ssa.UnOp); ok && u.Op == token.MUL {
+		var al *ssa.Alloc
+		switch a := u.X.(type) {
+		case *ssa.Alloc:
+			al = a
+		case *ssa.FreeVar:
+			if b, ok := freeVarBinding(a).(*ssa.Alloc); ok {
+				al = b
+			}
+		}
+		if al != nil {
+			if st := capturedStores(al); len(st) == 1 {
+				n := e.varName(st[0])
+				e.names[v] = n
+				return n
+			}
+		}
+	}
 	// field load: unify loads of the same field of the same object
 	if u, ok := v.(*ssa.UnOp); ok && u.Op == token.MUL {
 		if fa, ok := u.X.(*ssa.FieldAddr); ok {
@@ -117,6 +225,12 @@ func (e *linEnv) toLin(v ssa.Value, depth int) *linForm {
 		r.k.SetInt64(k)
 		return r
 	}
+	// len(make([]T, n)) = n
+	if x, isLen := isLenOf(unwrap(v)); isLen && depth < 12 {
+		if ms := e.makeOf(x); ms != nil {
+			return e.toLin(ms.Len, depth+1)
+		}
+	}
 	if depth < 12 {
 		if bo, ok := v.(*ssa.BinOp); ok {
 			switch bo.Op {
@@ -124,6 +238,15 @@ func (e *linEnv) toLin(v ssa.Value, depth int) *linForm {
 				return e.toLin(bo.X, depth+1).addScaled(e.toLin(bo.Y, depth+1), big.NewRat(1, 1))
 			case token.SUB:
 				return e.toLin(bo.X, depth+1).addScaled(e.toLin(bo.Y, depth+1), big.NewRat(-1, 1))
+			case token.QUO:
+				if k, okc := intConst(bo.Y); okc && k > 0 {
+					return e.quotient(bo, bo.X, k, depth)
+				}
+			case token.REM:
+				if k, okc := intConst(bo.Y); okc && k > 0 {
+					q := e.quotient(bo, bo.X, k, depth)
+					return e.toLin(bo.X, depth+1).sub(newLin().addScaled(q, big.NewRat(k, 1)))
+				}
 			case token.MUL:
 				if k, okc := intConst(bo.Y); okc {
 					return newLin().addScaled(e.toLin(bo.X, depth+1), big.NewRat(k, 1))
@@ -133,6 +256,9 @@ func (e *linEnv) toLin(v ssa.Value, depth int) *linForm {
 				}
 			}
 		}
+	}
+	if ph, ok := unwrap(v0).(*ssa.Phi); ok && depth < 12 {
+		e.inductionFacts(ph, depth)
 	}
 	r := newLin()
 	r.c[e.varName(v0)] = big.NewRat(1, 1)
@@ -147,8 +273,10 @@ func (e *linEnv) fromCmp(bo *ssa.BinOp, pos bool) [][]*linForm {
 	x, y := e.toLin(bo.X, 0), e.toLin(bo.Y, 0)
 	one := newLin()
 	one.k.SetInt64(1)
-	ge := func(a, b *linForm) *linForm { return a.addScaled(b, big.NewRat(-1, 1)) }                       // a - b >= 0
-	gt := func(a, b *linForm) *linForm { return a.addScaled(b, big.NewRat(-1, 1)).addScaled(one, big.NewRat(-1, 1)) } // a - b - 1 >= 0
+	ge := func(a, b *linForm) *linForm { return a.addScaled(b, big.NewRat(-1, 1)) } // a - b >= 0
+	gt := func(a, b *linForm) *linForm {
+		return a.addScaled(b, big.NewRat(-1, 1)).addScaled(one, big.NewRat(-1, 1))
+	} // a - b - 1 >= 0
 	op := bo.Op
 	if !pos {
 		switch op {
@@ -284,6 +412,40 @@ func (p *Prog) pathConstraintSets(at ssa.Instruction, e *linEnv, cap int) ([][]*
 					}
 				}
 			}
+			// integer phis of a join block that is not a loop header take the value of the edge followed
+			if !isLoopHeader(s) {
+				pi := -1
+				for k, pr := range s.Preds {
+					if pr == b {
+						if pi >= 0 {
+							pi = -2 // two edges from the same predecessor: ambiguous
+							break
+						}
+						pi = k
+					}
+				}
+				if pi >= 0 {
+					var eqs []*linForm
+					for _, in := range s.Instrs {
+						ph, ok := in.(*ssa.Phi)
+						if !ok {
+							break
+						}
+						if bt, isB := ph.Type().Underlying().(*types.Basic); !isB || bt.Info()&types.IsInteger == 0 {
+							continue
+						}
+						d := linVar(e.varName(ph)).sub(e.toLin(ph.Edges[pi], 0))
+						eqs = append(eqs, d, newLin().sub(d))
+					}
+					if len(eqs) > 0 {
+						var out [][]*linForm
+						for _, base := range na {
+							out = append(out, append(append([]*linForm{}, base...), eqs...))
+						}
+						na = out
+					}
+				}
+			}
 			if blockReaches(s, target) || s == target {
 				walk(s, onPath, na)
 			}
@@ -305,6 +467,10 @@ func (p *Prog) proveInRange(at ssa.Instruction, idx ssa.Value, base ssa.Value, s
 	e.lens[lenName] = true
 	ll := newLin()
 	ll.c[lenName] = big.NewRat(1, 1)
+	if ms := e.makeOf(base); ms != nil {
+		ll = e.toLin(ms.Len, 0)
+		lenName = "len(make)=" + ll.String()
+	}
 	sets, complete := p.pathConstraintSets(at, e, 3000)
 	if !complete {
 		return false, "too many paths"
@@ -314,6 +480,27 @@ func (p *Prog) proveInRange(at ssa.Instruction, idx ssa.Value, base ssa.Value, s
 	}
 	one := newLin()
 	one.k.SetInt64(1)
+	// side facts (division case splits, induction bounds) multiply the constraint sets
+	for changed := true; changed; {
+		changed = false
+		nside := len(e.side)
+		for _, alts := range e.side[:nside] {
+			var out [][]*linForm
+			for _, base := range sets {
+				for _, alt := range alts {
+					out = append(out, append(append([]*linForm{}, base...), alt...))
+				}
+			}
+			sets = out
+		}
+		e.side = e.side[nside:]
+		if len(e.side) > 0 {
+			changed = true
+		}
+		if len(sets) > 20000 {
+			return false, "too many case splits"
+		}
+	}
 	for _, cs := range sets {
 		axioms := append([]*linForm{}, cs...)
 		for ln := range e.lens {
@@ -324,6 +511,12 @@ func (p *Prog) proveInRange(at ssa.Instruction, idx ssa.Value, base ssa.Value, s
 		// negation of (idx >= 0): -idx - 1 >= 0
 		negLo := newLin().addScaled(li, big.NewRat(-1, 1)).addScaled(one, big.NewRat(-1, 1))
 		if !infeasible(append(append([]*linForm{}, axioms...), negLo)) {
+			if os.Getenv("BBL_DEBUG_LIN") != "" {
+				for _, a := range axioms {
+					fmt.Fprintln(os.Stderr, "  AX", a.String(), ">= 0")
+				}
+				fmt.Fprintln(os.Stderr, "  NEG", negLo.String())
+			}
 			return false, "cannot prove " + li.String() + " >= 0 from the guards on some path"
 		}
 		// negation of (idx <= len + slack): idx - len - slack - 1 >= 0
@@ -334,4 +527,40 @@ func (p *Prog) proveInRange(at ssa.Instruction, idx ssa.Value, base ssa.Value, s
 		}
 	}
 	return true, fmt.Sprintf("%d paths", len(sets))
+}
+
+// makeOf: x is (a single-assignment local holding) a make([]T, n) whose length is never changed.
+func (e *linEnv) makeOf(x ssa.Value) *ssa.MakeSlice {
+	x = unwrap(x)
+	if ms, ok := x.(*ssa.MakeSlice); ok {
+		return ms
+	}
+	if u, ok := x.(*ssa.UnOp); ok && u.Op == token.MUL {
+		var al *ssa.Alloc
+		switch a := u.X.(type) {
+		case *ssa.Alloc:
+			al = a
+		case *ssa.FreeVar:
+			if b, ok := freeVarBinding(a).(*ssa.Alloc); ok {
+				al = b
+			}
+		}
+		if al != nil {
+			if st := capturedStores(al); len(st) == 1 {
+				if ms, ok := unwrap(st[0]).(*ssa.MakeSlice); ok {
+					return ms
+				}
+			}
+		}
+	}
+	return nil
+}
+
+func isLoopHeader(b *ssa.BasicBlock) bool {
+	for _, p := range b.Preds {
+		if b.Dominates(p) {
+			return true
+		}
+	}
+	return false
 }
